@@ -13,11 +13,18 @@ k/(k+1) = `Infretis.Lattice.hit (k-1)` (theorem `crossing_closed_form`), where
 value for the Kish effective number of paths) — the floor makes an under-estimated block σ
 unable to raise an alarm.
 
+Thorough tier only: the same comparison for *pooled* relative deviations (inverse-variance weights
+over all configurations) of a-priori groups of columns — A: shooting column of [0+]; B: shooting
+column of the last ensemble; C: other shooting columns; D: wire-fencing columns; and the signed
+contrast L = B − A.  Each is tested at 6 σ.
+
 Signatures depend on the cause class, never on the seed:
-  C01:lattice:shooting-length-rule-bias   low estimate (≤ 12 % relative) in a configuration that
-                                          contains shooting ensembles — the C09 length rule
-                                          (accept iff L_new ≤ maxlen-1) under-weights long paths
-  C01:lattice:outside-6sigma:low|high     anything else outside the band
+  C01:lattice:shooting-length-rule-bias   a shooting ensemble's estimate (or pooled group A / B / L)
+        off by at most 8 % relative, in the direction the C09 length rule produces (accept iff
+        L_new ≤ maxlen-1 ⇒ longer paths under-weighted): LOW at the first interface (crossing
+        paths are the longer ones), HIGH at the last (crossing paths stop at the last interface,
+        the returning ones are longer), either sign in between
+  C01:lattice:outside-6sigma:<sh|wf>:<low|high>     anything else outside the band
 """
 from __future__ import annotations
 
@@ -37,7 +44,7 @@ sys.path.insert(0, str(VERIF / "harness" / "lattice"))
 import sim  # noqa: E402
 
 NSIGMA = 6.0
-LENGTH_RULE_MAX_REL = 0.12      # a low bias larger than this is not what the length rule produces
+LENGTH_RULE_MAX_REL = 0.08      # a deviation larger than this is not what the length rule produces
 SIG_LENGTH_RULE = "C01:lattice:shooting-length-rule-bias"
 
 
@@ -182,12 +189,25 @@ def cfg_str(c):
             f"restart@{c['first_leg']} seed={c['seed']}")
 
 
-def classify(c, st):
+def length_rule_direction(n, k):
+    """sign of the deviation the C09 length rule produces in shooting column k of n interfaces
+    (-1 low, +1 high, 0 either)"""
+    if k == 1 and n > 2:
+        return -1
+    if k == n - 1 and n > 2:
+        return +1
+    return 0
+
+
+def classify(c, k, st):
+    n = c["nintf"]
+    mv = c["moves"][k]
     low = st["p"] < st["p0"]
     rel = abs(st["p"] / st["p0"] - 1.0)
-    if low and "sh" in c["moves"][1:] and rel <= LENGTH_RULE_MAX_REL:
+    d = length_rule_direction(n, k)
+    if mv == "sh" and rel <= LENGTH_RULE_MAX_REL and (d == 0 or (d < 0) == low):
         return SIG_LENGTH_RULE
-    return "C01:lattice:outside-6sigma:" + ("low" if low else "high")
+    return f"C01:lattice:outside-6sigma:{mv}:" + ("low" if low else "high")
 
 
 def judge(ctx, r, record=True):
@@ -228,7 +248,7 @@ def judge(ctx, r, record=True):
         if e != "none" and abs(float(Fraction(e)) - st["p"]) > 1e-12 and record:
             ctx.disagree({"fn": "float-vs-exact estimate", "config": c, "col": k}, st["p"], e)
         if abs(z) > NSIGMA:
-            sig = classify(c, st)
+            sig = classify(c, k, st)
             what = (f"P(λ_{k}|λ_{k-1}) = {st['p']:.5f} but the exact value is {st['p0']:.5f} "
                     f"({100 * (st['p'] / st['p0'] - 1):+.2f} %, {z:+.1f} σ, σ_eff = {st['sigma']:.5f}; block σ "
                     f"{st['sigma_jk']:.5f}, binomial floor {st['floor']:.5f}) — {cfg_str(c)}")
@@ -239,24 +259,61 @@ def judge(ctx, r, record=True):
     return fails
 
 
+def group_of(c, k):
+    n = c["nintf"]
+    if c["moves"][k] == "wf":
+        return "D:wf"
+    d = length_rule_direction(n, k)
+    return {-1: "A:sh-first", 1: "B:sh-last", 0: "C:sh-middle"}[d]
+
+
 def pooled(results):
-    """pooled relative deviation (inverse-variance weights) of all shooting columns / all wf columns"""
-    out = {}
-    for mv in ("sh", "wf"):
-        num = den = 0.0
-        m = 0
-        for r in results:
-            if "cols" not in r:
+    """inverse-variance pooled relative deviation per a-priori group of columns, and the signed
+    length-rule contrast L = (B − A)/2-style pooled mean of s·dev with s = −1 on A, +1 on B"""
+    acc = {}
+
+    def add(g, dev, s):
+        a = acc.setdefault(g, [0.0, 0.0, 0])
+        a[0] += dev / (s * s)
+        a[1] += 1.0 / (s * s)
+        a[2] += 1
+
+    for r in results:
+        if "cols" not in r:
+            continue
+        c = r["config"]
+        for k, st in enumerate(r["cols"], 1):
+            if st is None or not st.get("sigma"):
                 continue
-            for k, st in enumerate(r["cols"], 1):
-                if st is None or not st.get("sigma") or r["config"]["moves"][k] != mv:
-                    continue
-                s = st["sigma"] / st["p0"]
-                num += (st["p"] / st["p0"] - 1.0) / (s * s)
-                den += 1.0 / (s * s)
-                m += 1
-        if den > 0:
-            out[mv] = {"columns": m, "rel_dev": num / den, "sigma": den ** -0.5, "z": (num / den) * den ** 0.5}
+            s = st["sigma"] / st["p0"]
+            dev = st["p"] / st["p0"] - 1.0
+            g = group_of(c, k)
+            add(g, dev, s)
+            if g.startswith("A"):
+                add("L:length-rule-contrast", -dev, s)
+            elif g.startswith("B"):
+                add("L:length-rule-contrast", dev, s)
+    out = {}
+    for g, (num, den, m) in sorted(acc.items()):
+        out[g] = {"columns": m, "rel_dev": num / den, "sigma": den ** -0.5, "z": num / den * den ** 0.5}
+    return out
+
+
+def judge_pooled(pl):
+    """(signature, what) for every pooled group beyond 6 σ"""
+    out = []
+    for g, d in pl.items():
+        if abs(d["z"]) <= NSIGMA:
+            continue
+        low = d["rel_dev"] < 0
+        small = abs(d["rel_dev"]) <= LENGTH_RULE_MAX_REL
+        if small and ((g.startswith("A") and low) or (g.startswith("B") and not low) or (g.startswith("L") and not low)):
+            sig = SIG_LENGTH_RULE
+        else:
+            sig = f"C01:lattice:outside-6sigma:pooled-{g[0]}:" + ("low" if low else "high")
+        what = (f"pooled over {d['columns']} estimates of group {g}: relative deviation "
+                f"{100 * d['rel_dev']:+.2f} % ± {100 * d['sigma']:.2f} % ({d['z']:+.1f} σ)")
+        out.append((sig, what, g))
     return out
 
 
@@ -335,23 +392,13 @@ def run(ctx):
     ctx.extra["mc_steps_total"] = tot_steps
     pl = pooled(results)
     ctx.extra["pooled_relative_deviation"] = pl
-    # thorough tier: the pooled deviation of the shooting columns resolves what single columns may not
-    if not ctx.quick and "sh" in pl and abs(pl["sh"]["z"]) > NSIGMA:
-        d = pl["sh"]
-        if d["rel_dev"] < 0 and abs(d["rel_dev"]) <= LENGTH_RULE_MAX_REL:
-            sig = SIG_LENGTH_RULE
-        else:
-            sig = "C01:lattice:outside-6sigma:" + ("low" if d["rel_dev"] < 0 else "high")
-        ctx.fail(sig, f"pooled over {d['columns']} shooting-ensemble estimates: relative deviation "
-                      f"{100 * d['rel_dev']:+.2f} % ± {100 * d['sigma']:.2f} % ({d['z']:+.1f} σ)",
-                 {"pooled": d, "configs": cfgs, "estimates": [[s and s["p"] for s in r.get("cols", [])] for r in results],
-                  "sigmas": [[s and s["sigma"] for s in r.get("cols", [])] for r in results]})
-    if not ctx.quick and "wf" in pl and abs(pl["wf"]["z"]) > NSIGMA:
-        d = pl["wf"]
-        ctx.fail("C01:lattice:outside-6sigma:wf-pooled:" + ("low" if d["rel_dev"] < 0 else "high"),
-                 f"pooled over {d['columns']} wire-fencing-ensemble estimates: relative deviation "
-                 f"{100 * d['rel_dev']:+.2f} % ± {100 * d['sigma']:.2f} % ({d['z']:+.1f} σ)",
-                 {"pooled": d, "configs": cfgs})
+    # thorough tier: pooled a-priori groups resolve what single columns may not
+    if not ctx.quick:
+        for (sig, what, g) in judge_pooled(pl):
+            ctx.count(1, branch="pooled-group")
+            ctx.fail(sig, what, {"pooled_group": g, "pooled": pl[g], "configs": cfgs,
+                                 "estimates": [[s_ and s_["p"] for s_ in r.get("cols", [])] for r in results],
+                                 "sigmas": [[s_ and s_["sigma"] for s_ in r.get("cols", [])] for r in results]})
     ctx.explanation = (
         "level=other: a statistical acceptance test cannot be a theorem. Proved in Lean (audited): the exact reference "
         "values (k+1)/(k+2) as the unique solution of the walk's boundary-value recurrence for every k; the estimator's "
@@ -395,8 +442,10 @@ def replay(ctx, obj):
             print("   STILL FAILS:", sig, what)
             bad = 1
     if "pooled" in rep:
-        pl = pooled(results).get("sh")
-        print("pooled shooting columns:", pl)
-        if pl and abs(pl["z"]) > NSIGMA:
+        pl = pooled(results)
+        for g, d in pl.items():
+            print("pooled", g, d)
+        for (sig, what, g) in judge_pooled(pl):
+            print("   STILL FAILS:", sig, what)
             bad = 1
     return bad
